@@ -130,29 +130,46 @@ def ni_cfg(ctx, name, table, others="O1", inst_a=1, inst_o=1, max_pw=1, other_fu
     return path
 
 
-def crowd(rng):
-    """Other clients that come and go before the observed ones: 9-40 short-lived announcements (serial numbers and request
-    table churn are shared state too: the observed client's serial becomes two hex digits / differs from its decimal form)."""
-    ev = []
-    for k in range(rng.choice((9, 15, 16, 17, 40))):
-        i = 100 + k
-        ev.append({"e": "C", "id": i, "addr": "A%x" % i, "port": 2000 + k})
-        if k % 3 == 0:
-            ev.append({"e": "H", "id": i})
-        ev.append({"e": "D", "id": i})
-    return ev
+FAR_IDS = [-2147483638, 2147483647, -2147483643, 2000000000, -2000000000, 1073741824, -1073741829]
 
 
 def with_crowd(rng, full):
-    """Prefix the interleaved history with a crowd and re-spell its routing tags for the shifted serials."""
-    cr = crowd(rng)
-    n = sum(1 for e in cr if e["e"] == "C")
-    out = list(cr)
-    for e in full:
-        if e["e"] == "X":
+    """Surround the interleaved history with other clients that share the daemon's global structures:
+    9-40 short-lived announcements before it (the serial of the observed clients becomes two hex digits and differs from its
+    decimal form), and clients with ids from the whole int range that stay live while the observed clients are served (the
+    request table is keyed by id; its order must hold for distant keys) - some announced up front, some in the middle, all
+    withdrawn at the end.  Routing tags of the history are re-spelled for the shifted serials."""
+    far = list(FAR_IDS)
+    rng.shuffle(far)
+    nfar = rng.choice((0, 2, 4, 7))
+    pre = []
+    for k in range(rng.choice((9, 15, 16, 17, 40))):
+        i = 100 + k
+        pre.append({"e": "C", "id": i, "addr": "A%x" % i, "port": 2000 + k})
+        if k % 3 == 0:
+            pre.append({"e": "H", "id": i})
+        pre.append({"e": "D", "id": i})
+    ann = lambda i, k: {"e": "C", "id": i, "addr": "A%x" % (i & 0xffffff), "port": 3000 + k}
+    pre += [ann(i, k) for k, i in enumerate(far[:nfar // 2])]
+    p = rng.randrange(len(full) + 1)
+    mid = [ann(i, 50 + k) for k, i in enumerate(far[nfar // 2:nfar])]
+    combined = pre + [dict(e, _old=True) for e in full[:p]] + mid + [dict(e, _old=True) for e in full[p:]] \
+        + [{"e": "D", "id": i} for i in far[:nfar]]
+    # old serial (s-th C of `full`) -> new serial (position among all C lines of the combined stream)
+    remap, nold, nnew = {}, 0, 0
+    for e in combined:
+        if e["e"] == "C":
+            nnew += 1
+            if e.get("_old"):
+                nold += 1
+                remap[nold] = nnew
+    out = []
+    for e in combined:
+        old = e.pop("_old", False)
+        if old and e["e"] == "X":
             m = _TAG.match(e["tag"])
-            if m:
-                e = dict(e, tag="%s_%x" % (m.group(1), int(m.group(2), 16) + n))
+            if m and int(m.group(2), 16) in remap:
+                e["tag"] = "%s_%x" % (m.group(1), remap[int(m.group(2), 16)])
         out.append(e)
     return out
 
